@@ -114,12 +114,21 @@ type argSpec struct {
 	pre  []string // targets before `--`
 	post []string // words after the first `--`
 	form string
+	// shadow: the configuration file defines variables called Args and ArgsList, and (shadow == 2) the command line
+	// passes --set Args=...: what follows `--` still reaches the task as .Args, .ArgsList and $ARGS
+	shadow int
 }
 
 func argCase(col *Collector, s argSpec, dir string) {
 	trace := newTracePath()
 	defer os.Remove(trace)
 	args := []string{"-c", filepath.Join(dir, "args.yaml"), "--output", "raw"}
+	if s.shadow > 0 {
+		args[1] = filepath.Join(dir, "args-shadow.yaml")
+	}
+	if s.shadow == 2 {
+		args = append(args, "--set", "Args=from-set", "--set", "ArgsList=set-list")
+	}
 	switch s.form {
 	case "run":
 		args = append(args, "run")
@@ -137,10 +146,13 @@ func argCase(col *Collector, s argSpec, dir string) {
 		}
 		return strings.Join(p, "")
 	}
-	cs := Case{Tags: []string{"args", "form=" + s.form, fmt.Sprintf("words=%d", len(s.post))}}
+	cs := Case{Tags: []string{"args", "form=" + s.form, fmt.Sprintf("words=%d", len(s.post)), fmt.Sprintf("shadowed-builtins=%d", s.shadow)}}
 	// oracle input: words are hex-free but may contain spaces: encode as a list with a separator that cannot occur
 	cs.Line = "args " + strings.Join(append(append(append([]string{}, s.pre...), "--"), s.post...), "\x1f")
 	cs.Replay = fmt.Sprintf("taskctl %s %s -- %s", s.form, strings.Join(s.pre, " "), q(s.post))
+	if s.shadow > 0 {
+		cs.Replay += fmt.Sprintf(" (configuration variables Args and ArgsList defined; --set Args/ArgsList: %v)", s.shadow == 2)
+	}
 	cs.NonTrivial = len(s.post) >= 2
 	lines := readTrace(trace)
 	var shown string
@@ -286,6 +298,7 @@ func runC10(col *Collector, tier string, seed int64) {
 	dir := newScratchDir("c10a")
 	defer os.RemoveAll(dir)
 	os.WriteFile(filepath.Join(dir, "args.yaml"), []byte(argsConfig), 0644)
+	os.WriteFile(filepath.Join(dir, "args-shadow.yaml"), []byte("variables:\n  Args: from-config\n  ArgsList: config-list\n  Other: x\n"+argsConfig), 0644)
 	alphabet := []string{"a", "t1", "k=v", "-x", "--", "", "a b", "--set", "x=y=z", "echoargs"}
 	var as []argSpec
 	// all vectors of length <=2 over the alphabet, sampled longer ones
@@ -313,7 +326,10 @@ func runC10(col *Collector, tier string, seed int64) {
 		if rng.Intn(3) == 0 {
 			pre = []string{"t1", "echoargs"}
 		}
-		as = append(as, argSpec{pre: pre, post: post, form: []string{"root", "run", "run task"}[rng.Intn(3)]})
+		as = append(as, argSpec{pre: pre, post: post, form: []string{"root", "run", "run task"}[rng.Intn(3)], shadow: []int{0, 0, 1, 2}[i%4]})
+	}
+	for _, sh := range []int{1, 2} {
+		as = append(as, argSpec{pre: []string{"echoargs"}, post: []string{"a", "b"}, form: "root", shadow: sh}, argSpec{pre: []string{"echoargs"}, post: nil, form: "run", shadow: sh})
 	}
 	type ud struct {
 		n, pos int
